@@ -1210,13 +1210,15 @@ pub struct Gen<'a> {
     /// inside an expression that must be pure and abort-free (place indices)
     pure_only: bool,
     shape: Vec<&'static str>,
+    /// (original, near-duplicate) function pairs
+    dups: Vec<(usize, usize)>,
 }
 
 const BOUNDARY: [u64; 12] = [0, 1, 2, 3, 7, 8, 15, 16, 255, 256, 65535, 65536];
 
 impl<'a> Gen<'a> {
     pub fn program(tape: &'a [u16], opts: &GenOpts) -> Program {
-        let mut g = Gen { t: Tape::new(tape), structs: vec![], enums: vec![], fns: vec![], env: vec![], budget: opts.budget, uid: 0, loop_depth: 0, cur_ret: Ty::U64, pure_only: false, shape: vec![] };
+        let mut g = Gen { t: Tape::new(tape), structs: vec![], enums: vec![], fns: vec![], env: vec![], budget: opts.budget, uid: 0, loop_depth: 0, cur_ret: Ty::U64, pure_only: false, shape: vec![], dups: vec![] };
         // declarations
         let ns = g.t.below(4);
         let ne = g.t.below(3);
@@ -1260,6 +1262,22 @@ impl<'a> Gen<'a> {
         }
         g.budget = g.budget.max(60);
         g.gen_fn(true);
+        // near-duplicate pairs are both called with the same literal arguments and both results logged, so that merging the
+        // two functions (function deduplication) is observable
+        let dups: Vec<(usize, usize)> = g.dups.iter().take(2).cloned().collect();
+        let mut prelude = vec![];
+        for (a, b) in dups {
+            let ptys: Vec<Ty> = g.fns[a].params.iter().map(|p| p.1.clone()).collect();
+            let args: Vec<Expr> = ptys.iter().map(|t| Expr::Lit(g.lit(t))).collect();
+            prelude.push(Stmt::Log(Expr::Call(a, args.clone())));
+            prelude.push(Stmt::Log(Expr::Call(b, args)));
+        }
+        if !prelude.is_empty() {
+            let main = g.fns.last_mut().unwrap();
+            for (i, st) in prelude.into_iter().enumerate() {
+                main.body.stmts.insert(i, st);
+            }
+        }
         if let (true, Some(px)) = (opts.force_pressure, pressure_ix) {
             let main = g.fns.last_mut().unwrap();
             main.body.stmts.insert(0, Stmt::Let { name: "zzp".into(), mutable: false, ty: Ty::U64, init: Expr::Call(px, vec![Expr::Var("a".into()), Expr::Var("b".into())]) });
@@ -1692,6 +1710,12 @@ impl<'a> Gen<'a> {
         for _ in 0..nst {
             self.gen_stmt(3, &mut stmts);
         }
+        // observability: a wrong value of a mutable variable must be able to reach a log (otherwise a miscompiled
+        // read-after-write stays invisible to every differential / reference check); at most three per function
+        let observed: Vec<String> = self.env.iter().rev().filter(|v| v.mutable).take(3).map(|v| v.name.clone()).collect();
+        for name in observed.into_iter().rev() {
+            stmts.push(Stmt::Log(Expr::Var(name)));
+        }
         let result = self.gen_expr(&ret, 4);
         let inline = if is_main { 0 } else { self.t.weighted(&[60, 25, 15]) as u8 };
         self.env.clear();
@@ -1712,6 +1736,7 @@ impl<'a> Gen<'a> {
         mutate_block(&mut f.body, target, &mut n);
         f.inline = 1;
         self.fns.push(f);
+        self.dups.push((self.fns.len() - 2, self.fns.len() - 1));
     }
 
     /// many simultaneously live u64 values, combined at the end (targets spilling)
